@@ -91,6 +91,10 @@ type C15Op struct {
 	Chain    string
 	// mkpair
 	Pair int
+	// speculative pre-execution: this operation is first executed on a DISCARDED branch (failed tx,
+	// simulation, unwritten CacheContext) right before the operation itself; it is not part of the
+	// chain's history and the model never sees it
+	Pre *C15Op
 }
 
 func (v C15Vote) Coq() string {
@@ -413,9 +417,26 @@ func (st c15State) sameSet(o c15State) bool {
 // ---- executing one op on the real code -----------------------------------------------------
 
 func (ce *c15Env) exec(o C15Op) ExecResult {
+	ctx := ce.E.Ctx.WithBlockHeight(o.Blk)
+	return execAtomic(ctx, func(ctx sdk.Context) (interface{}, error) { return ce.run(ctx, o) })
+}
+
+// speculate executes the op on a branch of the state that is thrown away whatever the outcome
+func (ce *c15Env) speculate(o C15Op) (ok bool) {
+	cacheCtx, _ := ce.E.Ctx.WithBlockHeight(o.Blk).CacheContext()
+	cacheCtx = cacheCtx.WithEventManager(sdk.NewEventManager())
+	defer func() {
+		if r := recover(); r != nil {
+			ok = false
+		}
+	}()
+	_, err := ce.run(cacheCtx, o)
+	return err == nil
+}
+
+func (ce *c15Env) run(ctx sdk.Context, o C15Op) (interface{}, error) {
 	e := ce.E
-	ctx := e.Ctx.WithBlockHeight(o.Blk)
-	return execAtomic(ctx, func(ctx sdk.Context) (interface{}, error) {
+	{
 		switch o.Kind {
 		case "oracle":
 			return e.Msg.UpdateOracle(ctx, opchildtypes.NewMsgUpdateOracle(o.Sender, o.Height, o.Data))
@@ -452,7 +473,7 @@ func (ce *c15Env) exec(o C15Op) ExecResult {
 			return nil, e.OK.RemoveCurrencyPair(ctx, c15Pair(o.Pair))
 		}
 		panic("c15 exec kind " + o.Kind)
-	})
+	}
 }
 
 // effectiveSet: is this accepted validator-set update one that must replace the recorded set (configured,
@@ -471,6 +492,22 @@ func (ce *c15Env) effectiveSet(o C15Op, ok bool) (map[string]*big.Int, bool) {
 
 // Do executes the op, records it and its observation, and runs the model-free monitor.
 func (ce *c15Env) Do(o C15Op, rep *Report) bool {
+	if o.Pre != nil {
+		o.Pre.Blk = o.Blk
+		st0 := ce.readState()
+		okPre := ce.speculate(*o.Pre)
+		st1 := ce.readState()
+		rep.Hist(fmt.Sprintf("discarded-branch:%s:%v", o.Pre.Kind, okPre))
+		same := st0.sameSet(st1)
+		for i := range st0.Quotes {
+			same = same && st0.Quotes[i].eq(st1.Quotes[i])
+		}
+		if !same {
+			ce.Ops = append(ce.Ops, o)
+			rep.Violate(Violation{Case: ce.ID, Step: len(ce.Ops) - 1, What: "an execution on a discarded branch changed the committed state", Sig: "C15:discarded-branch-changed-state", Ops: ce.history(len(ce.Ops) - 1)})
+			ce.Ops = ce.Ops[:len(ce.Ops)-1]
+		}
+	}
 	before := ce.readState()
 	res := ce.exec(o)
 	after := ce.readState()
@@ -537,6 +574,9 @@ func (ce *c15Env) history(upto int) []string {
 	defer func() { internOff = false }()
 	var out []string
 	for i := 0; i <= upto && i < len(ce.Ops); i++ {
+		if ce.Ops[i].Pre != nil {
+			out = append(out, "(* executed on a DISCARDED branch (not part of the history): "+ce.Ops[i].Pre.Coq()+" *)")
+		}
 		out = append(out, ce.Ops[i].Coq())
 	}
 	return out
@@ -607,6 +647,21 @@ func (ce *c15Env) monitor(rep *Report, step int, o C15Op, before, after c15State
 			}
 		}
 		return
+	}
+	// (1c) quorum, recomputed with math/big against the harness's own copy of the last COMMITTED set
+	// (accepted refreshes on kept branches only) and the harness's own key material
+	wAll, clean := ce.quorumView(o)
+	total := ce.InstTotal
+	if total == nil {
+		total = new(big.Int)
+	}
+	if ok && (total.Sign() <= 0 || new(big.Int).Mul(wAll, big.NewInt(3)).Cmp(new(big.Int).Mul(total, big.NewInt(2))) < 0) {
+		viol("C15:accepted-below-quorum", fmt.Sprintf("oracle update accepted although distinct validators of the committed set with validly signed commit votes hold only %s of %s (< 2/3)", wAll, total),
+			map[string]string{"signed_power": wAll.String(), "committed_total": total.String()})
+	}
+	if !ok && clean {
+		viol("C15:quorum-refused", fmt.Sprintf("well-formed oracle update refused although every entry is a validly signed commit vote of a distinct validator of the committed set pricing every pair with a fresh timestamp, together %s of %s (>= 0.667)", wAll, total),
+			map[string]string{"signed_power": wAll.String(), "committed_total": total.String()})
 	}
 	if !ok {
 		if len(changed) > 0 {
@@ -710,6 +765,80 @@ func (ce *c15Env) monitor(rep *Report, step int, o C15Op, before, after c15State
 	if len(noQuorum) > 0 {
 		viol("C15:no-quorum", "price changed with less than 2/3 of the recorded power behind validly signed commit votes of distinct validators: "+noQuorum[0], noQuorum)
 	}
+}
+
+// quorumView recomputes, from the submitted bytes only: the power of the distinct validators of the
+// committed set (the stream's own record) that have a commit-flag entry with a valid signature (own
+// ed25519 call), and whether the update is "clean": a case in which the property leaves no reason to
+// refuse it (executor, oracle on, height in range, every entry a validly signed commit vote of a
+// distinct committed validator, every existing pair priced by everybody, fresh timestamps, >= 0.667)
+func (ce *c15Env) quorumView(o C15Op) (*big.Int, bool) {
+	w := new(big.Int)
+	info, err := ce.EcCodec.Decode(o.Data)
+	if err != nil {
+		return w, false
+	}
+	clean := len(info.Votes) > 0 && ce.HasInfo && ce.OracleOn && o.SenderID != 0 && ce.InstSet != nil &&
+		o.Height != 0 && o.Height < uint64(1)<<63 && int64(o.Height) >= ce.SetH && ce.Created[0]
+	isExec := false
+	for _, x := range ce.Execs {
+		isExec = isExec || x == o.SenderID
+	}
+	clean = clean && isExec
+	if ce.InstTotal == nil || ce.InstTotal.Sign() <= 0 || ce.InstTotal.BitLen() > 62 {
+		clean = false
+	}
+	var maxLast int64
+	hasLast := false
+	for p := range c15PairNames {
+		if t, has := ce.LastTS[p]; has && ce.Created[p] && (!hasLast || t > maxLast) {
+			maxLast, hasLast = t, true
+		}
+	}
+	seen := map[string]bool{}
+	for _, v := range info.Votes {
+		a := string(v.Validator.Address)
+		tk, known := ce.InstSet[a]
+		good := known && !seen[a] && v.BlockIdFlag == cmtproto.BlockIDFlagCommit && len(v.ExtensionSignature) == stded.SignatureSize
+		if good {
+			var pub []byte
+			for _, u := range ce.Vals {
+				if bytes.Equal(u.Addr, v.Validator.Address) {
+					pub = u.Pub
+				}
+			}
+			good = pub != nil && stded.Verify(stded.PublicKey(pub), c15SignBytes(ce.Chain, int64(o.Height)-1, int64(info.Round), v.VoteExtension), v.ExtensionSignature)
+		}
+		if !good {
+			clean = false
+			continue
+		}
+		seen[a] = true
+		w.Add(w, tk)
+		ve, err := ce.VeCodec.Decode(v.VoteExtension)
+		if err != nil {
+			clean = false
+			continue
+		}
+		for p, name := range c15PairNames {
+			if !ce.Created[p] {
+				continue
+			}
+			pb, has := ve.Prices[c15PairHash(name)]
+			val, dec := c15DecodePrice(pb)
+			if !has || !dec || len(pb) > 33 {
+				clean = false
+				continue
+			}
+			if p == 0 && (val.BitLen() > 62 || (hasLast && val.Int64() <= maxLast)) {
+				clean = false
+			}
+		}
+	}
+	if clean && new(big.Int).Mul(w, big.NewInt(1000)).Cmp(new(big.Int).Mul(ce.InstTotal, big.NewInt(667))) < 0 {
+		clean = false
+	}
+	return w, clean
 }
 
 // ---- building votes ------------------------------------------------------------------------
@@ -903,6 +1032,14 @@ func (g *c15Gen) oracleOp() C15Op {
 	if g.attack > 0 && len(g.retired) > 0 {
 		dev = 0
 	}
+	specKind := -1
+	if !foreign && len(src) >= 3 && ce.HasInfo && ce.ClientID != "" && g.attack == 0 && r.Chance(14) {
+		// a validator-set refresh is executed on a DISCARDED branch right before this (otherwise well-formed) update
+		specKind = r.Intn(3)
+		if specKind < 2 {
+			dev = 0
+		}
+	}
 	if r.Chance(2) && g.tsNext < c15Year2200 { // the L1 clock jumps far ahead of any wall clock (timestamps are inputs)
 		g.tsNext = c15Year2200 + int64(r.Intn(1000000))
 	}
@@ -994,7 +1131,13 @@ func (g *c15Gen) oracleOp() C15Op {
 			g.attack--
 		}
 	}
-	notes := []string{"all-honest", "subset", "perturbed", "dup-attack", "unsigned-mix", "retired-only"}
+	switch specKind {
+	case 0:
+		shape = 6 // the discarded set = the signers (a lower-power subset of the committed set)
+	case 1:
+		shape = 0 // the discarded set has a much HIGHER total: an all-honest commit must still pass
+	}
+	notes := []string{"all-honest", "subset", "perturbed", "dup-attack", "unsigned-mix", "retired-only", "discarded-subset"}
 	o.Note = notes[shape]
 	if foreign {
 		o.Note = "foreign-set+" + o.Note
@@ -1013,7 +1156,23 @@ func (g *c15Gen) oracleOp() C15Op {
 		j := r.Intn(i + 1)
 		members[i], members[j] = members[j], members[i]
 	}
+	var spec []c15Entry
 	switch shape {
+	case 6: // signers: a subset holding between half and two thirds (if possible); all honest
+		total := new(big.Int)
+		for _, en := range src {
+			total.Add(total, big.NewInt(en.Power))
+		}
+		acc := new(big.Int)
+		for _, en := range members {
+			nxt := new(big.Int).Add(acc, big.NewInt(en.Power))
+			if new(big.Int).Mul(nxt, big.NewInt(3)).Cmp(new(big.Int).Mul(total, big.NewInt(2))) >= 0 {
+				continue
+			}
+			acc = nxt
+			spec = append(spec, en)
+			votes = append(votes, mk(en.Val, 0))
+		}
 	case 5:
 		for _, en := range g.retired {
 			votes = append(votes, mk(en.Val, 0))
@@ -1256,6 +1415,26 @@ func (g *c15Gen) oracleOp() C15Op {
 		panic(err)
 	}
 	o.Data, o.Votes, o.CommitOK = bz, votes, true
+	if specKind >= 0 {
+		pre := C15Op{Kind: "hostset", Client: ce.ClientID, ClientID: c15StrID(ce.ClientID), HHeight: base + int64(1+r.Intn(3))}
+		switch specKind {
+		case 0:
+			pre.Entries = spec
+		case 1:
+			for _, en := range src {
+				pre.Entries = append(pre.Entries, c15Entry{Val: en.Val, Power: en.Power*3 + 5})
+			}
+		case 2:
+			pre.Entries = g.newSet()
+			if r.Bool() {
+				pre.HHeight = base - int64(r.Intn(2))
+			}
+		}
+		if len(pre.Entries) > 0 {
+			o.Pre = &pre
+			o.Note = "after-discarded-refresh+" + o.Note
+		}
+	}
 	return o
 }
 
